@@ -379,6 +379,12 @@ pub struct World {
     pub feed: Addr,
     pub token: Option<Addr>,
     pub step_no: usize,
+    /// native deployments: collateral coins attached to the engine messages that need none
+    /// (ClosePosition, Liquidate, PayFunding, WithdrawMargin)
+    pub attach: Option<Uint128>,
+    /// spot price of every vAMM at the end of the previous block (harness-side ledger, recorded
+    /// whenever the harness starts a new block): the reference of the per-block price band
+    pub last_spot: Vec<Option<Uint128>>,
 }
 
 pub fn addr(s: &str) -> Addr {
@@ -560,7 +566,7 @@ impl World {
                 }
             }
         }
-        let mut w = World { app, cfg, d, engine, vamms, ins, feepool, feed, token, step_no: 0 };
+        let mut w = World { app, cfg, d, engine, vamms, ins, feepool, feed, token, step_no: 0, attach: None, last_spot: vec![] };
         let now = w.app.block_info().time.seconds();
         let p = w.cfg.oracle_price;
         let t = w.set_oracle(p, now);
@@ -636,19 +642,22 @@ impl World {
     }
     pub fn close(&mut self, who: &str, vi: usize, limit: Uint128) -> Tx {
         let (e, v) = (self.engine.clone(), self.vamms[vi].to_string());
-        let t = self.exec(who, &e, &EngineExec::ClosePosition { vamm: v, quote_asset_limit: limit }, &[]);
+        let f = self.funds(if self.token.is_none() { self.attach } else { None });
+        let t = self.exec(who, &e, &EngineExec::ClosePosition { vamm: v, quote_asset_limit: limit }, &f);
         self.logtx("close", &t);
         t
     }
     pub fn liquidate(&mut self, who: &str, vi: usize, trader: &str, limit: Uint128) -> Tx {
         let (e, v) = (self.engine.clone(), self.vamms[vi].to_string());
-        let t = self.exec(who, &e, &EngineExec::Liquidate { vamm: v, trader: trader.into(), quote_asset_limit: limit }, &[]);
+        let f = self.funds(if self.token.is_none() { self.attach } else { None });
+        let t = self.exec(who, &e, &EngineExec::Liquidate { vamm: v, trader: trader.into(), quote_asset_limit: limit }, &f);
         self.logtx("liquidate", &t);
         t
     }
     pub fn pay_funding(&mut self, who: &str, vi: usize) -> Tx {
         let (e, v) = (self.engine.clone(), self.vamms[vi].to_string());
-        let t = self.exec(who, &e, &EngineExec::PayFunding { vamm: v }, &[]);
+        let f = self.funds(if self.token.is_none() { self.attach } else { None });
+        let t = self.exec(who, &e, &EngineExec::PayFunding { vamm: v }, &f);
         self.logtx("pay_funding", &t);
         t
     }
@@ -661,7 +670,8 @@ impl World {
     }
     pub fn withdraw(&mut self, who: &str, vi: usize, amount: Uint128) -> Tx {
         let (e, v) = (self.engine.clone(), self.vamms[vi].to_string());
-        let t = self.exec(who, &e, &EngineExec::WithdrawMargin { vamm: v, amount }, &[]);
+        let f = self.funds(if self.token.is_none() { self.attach } else { None });
+        let t = self.exec(who, &e, &EngineExec::WithdrawMargin { vamm: v, amount }, &f);
         self.logtx("withdraw", &t);
         t
     }
@@ -747,7 +757,11 @@ impl World {
         self.logtx("transfer", &t);
         t
     }
+    fn note_block_end(&mut self) {
+        self.last_spot = (0..self.vamms.len()).map(|vi| self.spot_price(vi).ok()).collect();
+    }
     pub fn next_block(&mut self, dt: u64) {
+        self.note_block_end();
         self.app.update_block(|b| {
             b.time = b.time.plus_seconds(dt);
             b.height += 1;
@@ -756,6 +770,7 @@ impl World {
     /// next block `dt` whole seconds later plus `nanos` nanoseconds (block times are not aligned to
     /// whole seconds on a real chain)
     pub fn next_block_ns(&mut self, dt: u64, nanos: u64) {
+        self.note_block_end();
         self.app.update_block(|b| {
             b.time = b.time.plus_seconds(dt).plus_nanos(nanos);
             b.height += 1;
